@@ -818,7 +818,7 @@ def analyse_construct(prog, F, W, fn):
     if not reach:
         F.add('R15b', loop, fn, whatb, 'undecided', 'no call to parmcb::is_bfs_reachable in the construction loop')
     for r in reach:
-        bound = r.args()[3] if len(r.args()) >= 4 else None
+        bound = r.args()[-1] if len(r.args()) >= 4 else None      # (g, [index map,] s, t, max_hops)
         if bound is None:
             F.add('R15b', r, fn, whatb, 'undecided', 'no hop bound argument')
             continue
@@ -915,6 +915,16 @@ def analyse_construct(prog, F, W, fn):
                     break
             if witness is not None:
                 culprit = [a_ for a_ in others_d if isinstance(a_, tuple) and a_[0] == 'opaque' and loop.body is not None and loop.body.is_ancestor_of(fn.nodes[a_[1]])]
+                # the shortcut may rest on state the loop itself maintains (a flag set once the spanner has become a spanning tree, a component
+                # structure): whether that state implies "within the bound" is a graph-theoretic fact, not a property of the text
+                stateful = [a_ for a_ in culprit if witness.get(a_) and any(
+                    x_.k == 'DeclRefExpr' and x_.decl_id is not None and prog.vars[x_.decl_id].get('kind') == 'local' and
+                    any(dn_.k != 'VarDecl' and loop.is_ancestor_of(dn_) for (dn_, _r) in ex.assignments_to(fn, x_.decl_id))
+                    for x_ in [fn.nodes[a_[1]].strip_all()] + list(fn.nodes[a_[1]].walk()))]
+                if stateful:
+                    F.add('R15b', dp, fn, whatdrop, 'undecided', 'the drop is also reached without a positive hop test when `%s` holds, a flag the scan itself maintains: whether it implies '
+                          'a path within the bound is not decided' % fn.nodes[stateful[0][1]].text(40))
+                    continue
                 F.add('R15b', dp, fn, whatdrop, 'violation',
                       'the drop is also reached when the hop test answered "not reachable"%s: the dropped edge then has no path of at most 2k-1 retained edges '
                       '(for k = 1 every such shortcut is wrong)' % ((' (depends on `%s`)' % fn.nodes[culprit[0][1]].text(40)) if culprit else ''),
